@@ -27,7 +27,7 @@ def conjuncts(p):
     return out
 
 
-def null_stripped(ctx, fi, paths):
+def null_stripped(ctx, fi, paths, rule="C08.R4"):
     """R4: the inner construct sees the whole region except trailing bytes that were compared with the pad.
 
     Every byte cut off the end of the region data must have been compared equal to the pad (or to a prefix of it, for a trailing partial
@@ -74,14 +74,14 @@ def null_stripped(ctx, fi, paths):
             why = "each shortening step (%s) is guarded by dropped-slice == pad" % ", ".join(steps or ["none"])
         else:
             ok, why = False, "unrecognised region data %s" % N.show(data)
-        ctx.ob("C08.R4", fi, ok, "NullStripped hands the inner construct the region minus bytes that compared equal to the pad: %s" % why, key="stripped bytes are pad: %s" % why)
+        ctx.ob(rule, fi, ok, "NullStripped hands the inner construct the region minus bytes that compared equal to the pad: %s" % why, key="stripped bytes are pad: %s" % why)
     # loop-carried: in the iteration assumption of every non-final iteration the same guard holds (the loop condition is that guard)
     loops = uniq_events(paths, "LOOP")
     for lp in loops:
         c = lp["iter"]
         cs = c[2] if c[0] == "bool" and c[1] == "and" else (c,)
         ok = any(x[0] == "cmp" and x[1] == "==" and pad in x[2:] and any(y[0] == "sub" and y[2][0] == "slice" for y in x[2:]) for x in cs)
-        ctx.ob("C08.R4", fi, ok, "the strip loop continues only while the unit before the end index equals the pad", key="loop condition")
+        ctx.ob(rule, fi, ok, "the strip loop continues only while the unit before the end index equals the pad", key="loop condition")
         n += 1
     return n
 
